@@ -278,6 +278,7 @@ Section Model.
       else if 9223372036854775807 <? h_gaslimit h then RErr 1
       else if h_gaslimit h <? h_gasused h then RErr 1
       else if gas_bound_bad (h_gaslimit parent) (h_gaslimit h) then RErr 1
+      else if two63 <=? c_chain cs then RPanic                           (* sealHash: rlp of big.NewInt(int64(ChainId)) < 0 *)
       else
       match sealer (c_chain cs) h with
       | None => RErr 1
@@ -393,6 +394,7 @@ Section Model.
     if c_epoch cs =? 0 then (st, RPanic)
     else if negb (h_num h mod c_epoch cs =? 0) then (st, RErr 2)
     else if len (h_extra h) <? extraSeal then (st, RErr 5)
+    else if two63 <=? c_chain cs then (st, RPanic)                       (* sealHash: negative chain id cannot be encoded *)
     else match sealer (c_chain cs) h with
          | None => (st, RErr 1)
          | Some signer =>
